@@ -598,3 +598,48 @@ def switch_programs(seed=0, compatible_cases=True, big=False):
                 body = [A.Op(inst.op("before"), []), A.Switch(inst.switch_header(), items), A.Op(inst.op("between"), []),
                         A.Label("X"), A.Op(inst.op("after"), []), A.Ctrl("hold")]
                 yield ("switches", kinds, default), A.Program([A.Routine("def", 0, body)])
+
+
+CROSS_PRE = ("none", "op", "return", "op_return", "label_jump")
+CROSS_POST = ("op_hold", "jump_end", "jump_end_op", "jump_mid", "nothing", "return", "if", "while", "case_break")
+CROSS_KINDS = ("jump", "call", "cond_jump", "two_jumps")
+
+
+def cross_programs(seed=0, compatible_cases=True):
+    """G-cross: a label of routine 1 that is only reached from routine 0 (jump / call / conditional jump / two jumps), in front of it
+    nothing / an op / a `return` (the label is unreachable inside its own routine) and behind it every kind of continuation,
+    including the jump to a label at the routine end that per-routine jump elimination has to keep."""
+    inst = Instantiator(seed, compatible_cases)
+    for kind in CROSS_KINDS:
+        for pre in CROSS_PRE:
+            for post in CROSS_POST:
+                inst.reset()
+                if kind == "jump":
+                    r0 = [A.Op("r0_a", []), A.Jump("X")]
+                elif kind == "call":
+                    r0 = [A.Op("r0_a", []), A.Call("X"), A.Op("r0_b", []), A.Ctrl("end")]
+                elif kind == "cond_jump":
+                    r0 = [A.If([A.IfBranch(False, [inst.cond()], [A.Jump("X")])], None), A.Op("r0_b", []), A.Ctrl("end")]
+                else:
+                    r0 = [A.If([A.IfBranch(True, [inst.cond()], [A.Op("r0_a", []), A.Jump("X")])], [A.Jump("X")])]
+                r1 = {"none": [], "op": [A.Op("r1_pre", [])], "return": [A.Ctrl("return")],
+                      "op_return": [A.Op("r1_pre", []), A.Ctrl("return")],
+                      "label_jump": [A.Label("P"), A.Op("r1_pre", []), A.If([A.IfBranch(False, [inst.cond()], [A.Jump("P")])], None), A.Ctrl("hold")]}[pre]
+                r1 = list(r1) + [A.Label("X")]
+                if post == "op_hold":
+                    r1 += [A.Op("r1_x", []), A.Ctrl("hold")]
+                elif post == "jump_end":
+                    r1 += [A.Jump("E"), A.Op("r1_skipped", []), A.Label("E")]
+                elif post == "jump_end_op":
+                    r1 += [A.Jump("E"), A.Op("r1_skipped", []), A.Label("E"), A.Op("r1_last", [])]
+                elif post == "jump_mid":
+                    r1 += [A.Jump("M"), A.Op("r1_skipped", []), A.Label("M"), A.Op("r1_mid", []), A.Ctrl("end")]
+                elif post == "return":
+                    r1 += [A.Ctrl("return")]
+                elif post == "if":
+                    r1 += [A.If([A.IfBranch(False, [inst.cond()], [A.Op("r1_then", [])])], [A.Op("r1_else", [])]), A.Ctrl("end")]
+                elif post == "while":
+                    r1 += [A.While(True, inst.cond(), [A.Op("r1_body", [])])]
+                elif post == "case_break":
+                    r1 += [A.Switch(inst.switch_header(), [A.SwitchItem(inst.case_header(), [A.Op("r1_c", []), A.Ctrl("break")])])]
+                yield ("cross", kind, pre, post), A.Program([A.Routine("def", 0, r0), A.Routine("def", 1, r1)])
